@@ -534,10 +534,10 @@ Proof.
   intros H.
   assert (Hd : new_doc_res refute_text = ODone refute_doc) by (vm_compute; reflexivity).
   assert (Hn : no_diagnostics refute_doc).
-  { split; [vm_compute; reflexivity|]. apply Forall_forall. apply (proj1 (forallb_forall (fun t => match terr t with [] => true | _ => false end) (d_toks refute_doc))
-      ltac:(vm_compute; reflexivity)) || idtac.
-    intros t Ht. pose proof (proj1 (forallb_forall (fun t => match terr t with [] => true | _ => false end) (d_toks refute_doc))
-      ltac:(vm_compute; reflexivity) t Ht) as Hx. cbv beta in Hx. destruct (terr t); [reflexivity | discriminate]. }
+  { split; [vm_compute; reflexivity|]. apply Forall_forall. intros t Ht.
+    pose proof (proj1 (forallb_forall (fun t => match terr t with [] => true | _ => false end) (d_toks refute_doc))
+                      ltac:(vm_compute; reflexivity) t Ht) as Hx.
+    cbv beta in Hx. destruct (terr t); [reflexivity | discriminate]. }
   (* the procedure name `k` in the header: token 1, bytes 5..6, position (0, 5) *)
   destruct (H refute_text refute_doc Hd Hn (Some (str "k")) 1%nat (str "k") ScGlobal
               ltac:(vm_compute; left; reflexivity)
